@@ -150,7 +150,7 @@ def _clone(x):
     return json.loads(json.dumps(x)) if x is not None else None
 
 
-async def session(db, choose, thorough=False):
+async def session(db, choose, thorough=False, bunching=False):
     """One client session of two submits.  Returns a list of violations (strings)."""
     ac = aioclient()
     fe, _ = bo.front_end()
@@ -166,21 +166,23 @@ async def session(db, choose, thorough=False):
     fe.time_msecs = lambda: 0
     try:
         # at most one request of the session loses its response and is sent again (which one is a shape choice)
-        retried = choose('retried_request', [None, 0, 1, 2, 3, 4, 5] if thorough else [None, 1, 3, 4])
+        retried = None if bunching else choose('retried_request', [None, 0, 1, 2, 3, 4, 5] if thorough else [None, 1, 3, 4])
         client = FakeClient(world, fdb, lambda k: k == retried)
         b = ac.Batch(client, None, token='tokA')
         created = []   # (handle, kind, update index, in-update index, parent handles)
         bad = []
         for submit in (1, 2):
-            ng = choose(f's{submit}_n_groups', [0, 1])
+            ng = choose(f's{submit}_n_groups', [0, 1, 2] if bunching else [0, 1])
             nj = choose(f's{submit}_n_jobs', [1, 2]) if thorough else (2 if submit == 1 else 1)
             groups = []
             for gi in range(ng):
-                groups.append(b.create_job_group())
+                # with the byte limit in play the group specs are padded to about the size of a job spec, so that no two
+                # specs of either kind fit into one bunch together
+                groups.append(b.create_job_group(callback='http://cb/' + 'x' * 400) if bunching else b.create_job_group())
             for ji in range(nj):
                 parents = []
                 earlier = [c[0] for c in created if c[1] == 'job']
-                if earlier and (thorough or ji == nj - 1) and choose(f's{submit}_j{ji}_has_parent', [False, True]):
+                if earlier and not bunching and (thorough or ji == nj - 1) and choose(f's{submit}_j{ji}_has_parent', [False, True]):
                     parents = [earlier[-1]]
                 jg = groups[0] if groups and (thorough or ji == 0) and choose(f's{submit}_j{ji}_in_new_group', [False, True]) else None
                 maker = jg if jg is not None else b
@@ -189,7 +191,13 @@ async def session(db, choose, thorough=False):
             for gi, g in enumerate(groups):
                 created.append((g, 'group', submit, gi + 1, [], None))
             size = choose(f's{submit}_max_bunch_size', [1, 1000])
-            await b.submit(max_bunch_size=size, disable_progress_bar=True)
+            kw = {}
+            if bunching and choose(f's{submit}_bytes_limit_cuts', [False, True]):
+                # the BYTE limit, not the count limit, splits the bunches: every spec fits alone, no two fit together
+                lens = [len(ac.orjson.dumps(sp)) for sp in list(b._job_group_specs) + list(b._job_specs)]
+                if lens:
+                    kw['max_bunch_bytesize'] = max(lens) + 24
+            await b.submit(max_bunch_size=size, disable_progress_bar=True, **kw)
             # compare the ids the client computed with what the server recorded
             upd = db.t['batch_updates'].rows.get((1, submit))
             if upd is None or upd.present is not True:
@@ -228,9 +236,9 @@ async def session(db, choose, thorough=False):
         fe.random, fe.time_msecs = saved
 
 
-def explore(thorough=False, max_paths=20000):
+def explore(thorough=False, max_paths=20000, bunching=False):
     """Enumerate every shape with the z3-driven explorer; returns (n_paths, [(choices, violations)])."""
-    sizes = model.Sizes(J=4, G=3, U=2, I=1, A=1, T=1, IC=1)
+    sizes = model.Sizes(J=4, G=5 if bunching else 3, U=2, I=1, A=1, T=1, IC=1)
     pre = model.empty_db(sizes)
     pre.concrete_env = lambda name, arg: 0
     ex = glue.Explorer([], max_paths=max_paths, max_decisions=60)
@@ -238,7 +246,7 @@ def explore(thorough=False, max_paths=20000):
 
     def body(db):
         async def run():
-            return await session(db, lambda name, opts: glue.choose(name, opts), thorough)
+            return await session(db, lambda name, opts: glue.choose(name, opts), thorough, bunching)
         return run()
     outs = ex.run(pre, body)
     for o in outs:
@@ -249,12 +257,12 @@ def explore(thorough=False, max_paths=20000):
     return len(outs), results, ex.choice_vars
 
 
-def replay_choices(values, thorough=False):
-    sizes = model.Sizes(J=4, G=3, U=2, I=1, A=1, T=1, IC=1)
+def replay_choices(values, thorough=False, bunching=False):
+    sizes = model.Sizes(J=4, G=5 if bunching else 3, U=2, I=1, A=1, T=1, IC=1)
     db = model.empty_db(sizes)
     db.concrete_env = lambda name, arg: 0
     loop = asyncio.new_event_loop()
     try:
-        return loop.run_until_complete(session(db, lambda name, opts: opts[values.get(name, 0)], thorough))
+        return loop.run_until_complete(session(db, lambda name, opts: opts[values.get(name, 0)], thorough, bunching))
     finally:
         loop.close()
